@@ -12,6 +12,10 @@
 (*   "stale_local_len"  the per-local-queue counter of the ordered queue is  *)
 (*                      a separate field that a sibling's steal does not     *)
 (*                      update (code before the fix: commit).                *)
+(*   "consult_needs_room"  the periodic look at the shared queue is made   *)
+(*                      only while the local queue may steal (at most half  *)
+(*                      full): a busy queue above half starves the shared   *)
+(*                      items (seed C06-2).                                  *)
 (* With Deviations = {} the local length is derived from the workers.        *)
 EXTENDS WSQObs, TLC, Json
 
@@ -136,6 +140,7 @@ LPop(q, s) ==
   /\ tick' = [tick EXCEPT ![q] = @ + 1]
   /\ LET t == tick[q] + 1
          consult == (t % Period = 0) /\ glen > 0 /\ shared # <<>>
+                    /\ ("consult_needs_room" \notin Deviations \/ LLen(q) < Half)
          sharedWaiting == shared # <<>>
      IN IF consult
         THEN /\ out' = out \cup {Best(shared).item}
